@@ -9,7 +9,11 @@ C(a) == [k |-> "call", a |-> a]
 Inv == [k |-> "inv", a |-> 0]
 
 \* argument tuples of the `cached` probe: f(1), f(hex=FALSE), f(hex=TRUE) - the last two have the same keyword NAMES
-ArgForms == << [pos |-> <<1>>, kw |-> <<>>], [pos |-> <<>>, kw |-> << <<"hex", FALSE>> >>], [pos |-> <<>>, kw |-> << <<"hex", TRUE>> >>] >>
+\* `ret`: what the probe body returns for these arguments: "ord" = the ordinal of the body execution,
+\* "falsy" = None / 0 / False / "" / () (rotating over the replayed walks): memoization must not depend on the
+\* truth value of the result
+ArgForms == << [pos |-> <<1>>, kw |-> <<>>, ret |-> "falsy"], [pos |-> <<>>, kw |-> << <<"hex", FALSE>> >>, ret |-> "ord"],
+              [pos |-> <<>>, kw |-> << <<"hex", TRUE>> >>, ret |-> "falsy"] >>
 KwClasses == <<1, 2, 2>>
 CachedProg == << <<C(1), C(2)>>, <<C(3), Inv, C(2)>>, <<C(2), C(3)>> >>
 TscProg == << <<C(1), C(1)>>, <<C(1), C(1)>> >>
